@@ -58,6 +58,10 @@ def bswap64 (v : Nat) : Nat :=
   (v % 256) * 2 ^ 56 + (v / 2 ^ 8 % 256) * 2 ^ 48 + (v / 2 ^ 16 % 256) * 2 ^ 40 + (v / 2 ^ 24 % 256) * 2 ^ 32 +
   (v / 2 ^ 32 % 256) * 2 ^ 24 + (v / 2 ^ 40 % 256) * 2 ^ 16 + (v / 2 ^ 48 % 256) * 2 ^ 8 + (v / 2 ^ 56 % 256)
 
+/-- `&`, `|`, `^` on signed integers of width `w` (two's complement): the operation on the bit patterns, read back signed -/
+def ibit2 (w : Nat) (f : Nat → Nat → Nat) (a b : Int) : Int :=
+  sx w (f (a % (2 ^ w : Int)).toNat (b % (2 ^ w : Int)).toNat)
+
 /-- stores of a callee that was handed `buf + off` -/
 def shiftW (off : Nat) (stores : List (Nat × Nat)) : List (Nat × Nat) := stores.map fun p => (off + p.1, p.2)
 
@@ -236,6 +240,9 @@ def learn_typedefs(cfile, node):
                     if q in c2lean.SIGNED:
                         c2lean.SIGNED[ident] = c2lean.SIGNED[q]
                         break
+                    if q.startswith("enum "):          # an enum typedef (x86-64 SysV: unsigned int unless it has negatives)
+                        c2lean.UNSIGNED[ident] = 32
+                        break
 
 
 LEARNED = set()
@@ -405,6 +412,11 @@ class Fn2(c2lean.Fn):
         return env.writes[buf].expr() if buf in env.writes else "[]"
 
     def read_at(self, env, buf, pos, ty):
+        if buf in self.out_params:
+            # `*out` read back after it has been stored (`*out <<= k`): the value stored last
+            if buf in env.outs and pos in (0, "0"):
+                return V(env.outs[buf], ty)
+            raise Unsupported(f"read of out-parameter {buf} before it is stored")
         if isinstance(buf, str) and buf.startswith("@bytes:"):
             loc = env.vars[buf[7:]]
             return V(f"(({loc.s} / 2 ^ (8 * {paren(str(pos))})) % 256)", Ty("u", 8))
@@ -687,6 +699,11 @@ class Fn2(c2lean.Fn):
                             return V(f"((({x} % {int(y) + 1}) : Nat) : Int)", ty)
                 sym = {"&": "&&&", "|": "|||", "^": "^^^"}[op]
                 return V(f"((({na} {sym} {nb}) : Nat) : Int)", ty)
+            try:
+                return super().arith(op, a, b, ty)
+            except Unsupported:
+                sym = {"&": "&&&", "|": "|||", "^": "^^^"}[op]
+                return V(f"(ibit2 {ty.width} (· {sym} ·) {ca.s} {cb.s})", ty)
         return super().arith(op, a, b, ty)
 
     # ------------------------------------------------------------------ statements
@@ -1838,6 +1855,22 @@ TARGETS2 = {
     ],
     "CAdaptive": [
         ("varintAdaptive.c", "varintAdaptiveCheckSorted", "adaptiveCheckSorted"),
+    ],
+    "CDim": [
+        ("import", "CExternal", "varintExternal.c:varintExternalLoadFromEncodingLittleEndian_:extLoadLE,"
+                                "varintExternal.c:varintExternalPutFixedWidth:extPutFixedWidth,"
+                                "varintExternal.c:varintExternalGet:extGet"),
+        ("varintDimension.c", "varintDimensionPack", "dimPack"),
+        ("varintDimension.c", "varintDimensionUnpack", "dimUnpack"),
+        ("varintDimension.c", "varintDimensionPairDimension", "dimPairDimension"),
+        ("varintDimension.c", "varintDimensionPairEncode", "dimPairEncode"),
+        ("varintDimension.c", "varintDimensionPairDecode", "dimPairDecode"),
+        ("varintDimension.c", "getEntryByteOffset", "dimEntryOffset"),
+        ("varintDimension.c", "varintDimensionPairEntryGetUnsigned", "dimEntryGetUnsigned"),
+        ("varintDimension.c", "varintDimensionPairEntrySetUnsigned", "dimEntrySetUnsigned"),
+        ("varintDimension.c", "varintDimensionPairEntryGetBit", "dimEntryGetBit"),
+        ("varintDimension.c", "varintDimensionPairEntrySetBit", "dimEntrySetBit"),
+        ("varintDimension.c", "varintDimensionPairEntryToggleBit", "dimEntryToggleBit"),
     ],
     # the template header src/varintPacked.h as instantiated by harness/vw_packed.c (12-bit values, uint32_t slots)
     "CPacked": [
